@@ -137,8 +137,17 @@ def transact_equations(ck, an, want: set):
             ck.check(lhs == Poly(), "LIN", "S5.reference-conservation", subj, fa.loc(n),
                      "new position x new reference price = old position x old reference + traded quantity x execution price (only the traded lots pay the spread)",
                      f"the reference price of the whole position is reset to {L.key()}: position x reference is off by {lhs.key()} "
-                     "(adding to a margined position re-charges the spread on the lots already held)", construct=stmt_text(n),
+                     "(adding to a margined position re-charges the spread on the lots already held)", construct=_canon_store(fa, n),
                      witness=[f"Q' x ref' - Q x ref - q x acq = {lhs.key()}"])
+
+
+def _canon_store(fa, n) -> str:
+    """`target[key] = value` of the statement around node n, spelt with value ids (temporaries expanded): the key of a finding must not depend on local names"""
+    st = enclosing_stmt(n)
+    if isinstance(st, ast.Assign) and len(st.targets) == 1 and isinstance(st.targets[0], ast.Subscript):
+        t = st.targets[0]
+        return f"{fa.sym.canon(t.value)}[{fa.sym.canon(t.slice)}] = {fa.sym.canon(st.value)}"
+    return stmt_text(n)
 
 
 # ---------------------------------------------------------------------------
